@@ -39,22 +39,29 @@ def handleRun (toks impl : List String) : String :=
         (field impl "same"), (field impl "leaked").bind nat? with
   | some k, some gz, some ret, some w, some lines, some total, some delivered, some same, some leaked =>
     let kk : Option Nat := if k == "-" then none else k.toNat?
-    let shouldFail : Bool := match kk with | some j => decide (j < w) | none => false
+    -- the document cannot be marshalled to the end (older case lines have no such field)
+    let mf : Bool := (field toks "mf") == some "1"
+    let late : Nat := ((field impl "late").bind nat?).getD 0
+    let outFails : Bool := match kk with | some j => decide (j < w) | none => false
+    let shouldFail : Bool := outFails || mf
     if leaked > 0 then s!"VIOL clause=lt.no_leak leaked={leaked}"
-    else if shouldFail && ret != "err" then "VIOL clause=lt.fault_reported"
+    else if late > 0 then s!"VIOL clause=lt.quiescent late={late}"
+    else if shouldFail && ret != "err" then
+      (if outFails then "VIOL clause=lt.fault_reported" else "VIOL clause=lt.marshal_error_reported")
     else if !shouldFail && ret != "ok" then "VIOL clause=lt.spurious_error"
-    else if !shouldFail && (delivered != total || same != "1") then "VIOL clause=lt.complete"
+    else if !outFails && (delivered != total || same != "1") then "VIOL clause=lt.complete"
     else if !shouldFail && (field impl "complete") == some "0" then "VIOL clause=lt.complete why=gzip-stream-unfinished"
     else if same != "1" then "VIOL clause=lt.prefix"
     else
       -- correspondence with the abstract protocol (plain output: one output write per filter write)
       if gz == "1" then "OK nt=1" else
       let ls := List.replicate lines 1         -- line lengths are irrelevant to the outcome
-      let s0 := init [lines + 1] ls kk false
+      let s0 := init [lines + 1] ls kk false mf
       let fin := runModel (20 * (lines + 8)) s0
       let mRet := match fin.p with | .done true => "ok" | .done false => "err" | _ => "stuck"
       if totalWrites ls false != w then s!"CORR clause=lt.write_count model={totalWrites ls false} impl={w}"
       else if mRet != ret then s!"CORR clause=lt.protocol_model model={mRet}"
+      else if fin.c == .run then "CORR clause=lt.protocol_model model=filter-running"
       else "OK nt=1"
   | _, _, _, _, _, _, _, _, _ => "BAD"
 
